@@ -253,6 +253,7 @@ func checkC05(c *Check) {
 	// AccountClose (C03-R2), and the account-closed hook closes the deployment on every path on which it is active
 	// (C04-R2) — otherwise escrow says closed while the payment / deployment record says open
 	c.settleHandsOnPayments("R4", l.settleCore())
+	c.statePersistedRule("R4", l.pkgFuncs("x/escrow/keeper"))
 	{
 		fn := l.Func("x/market/hooks", "hooks", "OnEscrowAccountClosed")
 		c.Analysed(fnName(fn))
@@ -260,7 +261,7 @@ func checkC05(c *Check) {
 		active := func(f []Atom) bool { return hasStateFact(f, "eq", "GetDeployment(", dact) }
 		c.requireWhen("R4", "account-closed hook: deployment -> closed", fn, active, func(x ssa.CallInstruction) bool { return callIs(x, "CloseDeployment", "", "types.Deployment") }, "deployment stays active although its escrow account is closed")
 	}
-	c.Floor("R4", 5)
+	c.Floor("R4", 12)
 
 	// ---- R2 id mapping shape
 	c.idMapping()
